@@ -40,4 +40,8 @@ def m_f14(f, m):
     return m.get("what") == "event" and m["event"].get("k") == "idem" and "[F14:" in m.get("verdict", "")
 
 
-MATCHERS = {"codec_law_delims": m_f03, "f03": m_f03, "f14": m_f14}
+def m_f21(f, m):
+    return m.get("what") == "event" and "[F21:" in m.get("verdict", "")
+
+
+MATCHERS = {"codec_law_delims": m_f03, "f03": m_f03, "f14": m_f14, "f21": m_f21}
